@@ -22,11 +22,15 @@ def gen_cp_case(rng, nranks=None, **more):
     if focus:
         sync_rate, event_rate = 0.0, 0.4
     # a device-wide synchronisation must wait for every thread's work; the simulator schedules threads one
-    # after the other, so a second launching thread is only generated when there are no blocking calls
+    # after the other: with blocking calls (and no CUDA events) the second thread's activities are fitted around the
+    # returns of the first thread's blocking calls (RankSim.fit_around_syncs), otherwise a second launching thread
+    # is only generated when there are no blocking calls
+    two_with_syncs = sync_rate > 0 and event_rate == 0.0 and not focus and rng.random() < 0.5
     case = C.gen_with(rng, lambda c: C.every_rank_has_device(c) and all(has_linked_launch(ev) for ev in c["ranks"].values()), nranks=nranks, sync_rate=sync_rate, event_rate=event_rate, **({"nstreams": rng.choice([2, 2, 3])} if (event_rate or (sync_rate and rng.random() < 0.7)) else {}), **({"long_idle": True} if rng.random() < 0.06 else {}), **more,
                       missing_rate=rng.choice([0.0, 0.0, 0.1]), nsteps=rng.choice([0, 1, 2, 3]),
-                      zero_rate=rng.choice([0.0, 0.1, 0.2]), two_threads=(sync_rate == 0.0 and (focus or rng.random() < (0.6 if event_rate else 0.4))),
-                      **({"share_streams": 0.9, "launch_rate": 0.6, "top_ops": 4} if focus else ({"share_streams": 0.7} if event_rate and rng.random() < 0.7 else {})))
+                      zero_rate=rng.choice([0.0, 0.1, 0.2]), two_threads=two_with_syncs or (sync_rate == 0.0 and (focus or rng.random() < (0.6 if event_rate else 0.4))),
+                      sync_ties=two_with_syncs and rng.random() < 0.6,
+                      **({"share_streams": 0.9, "launch_rate": 0.6, "top_ops": 4} if focus else ({"share_streams": 0.7} if (event_rate or two_with_syncs) and rng.random() < 0.7 else {})))
     G.add_sync_records(rng, case)
     steps = sorted({e["name"] for ev in case["ranks"].values() for e in ev if str(e.get("name", "")).startswith("ProfilerStep#")})
     r = rng.random()
